@@ -302,6 +302,27 @@ fn main() {
                 }
             }
         });
+        // one side beyond 16 bits (flat or tall shapes: the point count stays small): squared half-widths
+        // pass 2^32 (seeded `C06-12`: a per-row limit of the ellipse stored in u32)
+        let nh = run.tier(36u64, 600u64);
+        run.generate("one-side-beyond-16-bit", nh, false, 0.2, |ctx, idx, rng| {
+            let long = *rng.pick(&[65_535u32, 65_536, 65_537, 65_538, 70_001, 92_682, 131_073]) + if idx % 3 == 2 { rng.u32r(0, 500) } else { 0 };
+            let short = rng.u32r(1, 6);
+            let (w, h) = if idx % 2 == 0 { (long, short) } else { (short, long) };
+            let st = StyleD { fill: if rng.chance(2, 3) { Some(1) } else { None }, stroke: if rng.chance(3, 4) { Some(2) } else { None }, width: rng.u32r(0, 3), align: rng.below(3) as u8, dotted: false };
+            let at = (rng.i32r(-70_000, 100), rng.i32r(-70_000, 100));
+            let tl = Point::new(at.0, at.1);
+            match (idx / 2) % 3 {
+                0 => check(ctx, Rectangle::new(tl, Size::new(w, h)), st),
+                1 => check(ctx, Ellipse::new(tl, Size::new(w, h)), st),
+                _ => {
+                    let mut r = |rng: &mut Rng| Size::new(rng.u32r(0, w / 2), rng.u32r(0, h / 2 + 1));
+                    let corners = CornerRadii { top_left: r(rng), top_right: r(rng), bottom_right: r(rng), bottom_left: r(rng) };
+                    check(ctx, RoundedRectangle::new(Rectangle::new(tl, Size::new(w, h)), corners), st)
+                }
+            }
+            ctx.count("shapes_with_a_side_beyond_16_bits", 1);
+        });
         // inside strokes of extreme width (the "stroke fills the whole shape" idiom is u32::MAX): nothing
         // of the stroke lies outside the shape, so the areas stay small and can be compared point by point
         let ne = run.tier(1_200u64, 40_000u64);
